@@ -234,24 +234,45 @@ def genExportPickle (env : Env) (cwd : Path) (pickleTypes : List (String × Stri
         W.pure ()
 
 def genExportLandmarkFile (env : Env) (cwd : Path) (landmarkTypes : List (String × String)) (landmarksobject : ExObj) (fp : Fp) (extension : OStr) (overwrite : Bool) : IOx Unit :=
-  W.bind ((W.lift (genNormalizeExtension extension))) fun extension0 =>
-    W.tryW (
-        W.bind ((W.lift (ExObj.nPoints landmarksobject))) fun _ =>
-          W.pure (()))
-      (fun s0 =>
-        W.bind ((genExport env cwd landmarksobject fp landmarkTypes extension0 overwrite none)) fun _ =>
-          W.pure ())
-      (fun e_ =>
-        if e_ == Exc.attributeError then
-          let fpispath0 := (Fp.isStrOrPath fp)
-          if (((extension0).isSome && ((extension0 != (ostr ".ljson")))) || ((PyX.truthy fpispath0) && (((Fp.suffix (Fp.toPath fp)) != (ostr ".ljson"))))) then
-            let m10 := ()
-            W.throw Exc.valueError
-          else
+  if (Fp.isStrOrPath fp) then
+    W.bind ((genValidateFilepath env cwd (Fp.toPath fp) overwrite)) fun _ =>
+      W.bind ((W.lift (genNormalizeExtension extension))) fun extension0 =>
+        W.tryW (
+            W.bind ((W.lift (ExObj.nPoints landmarksobject))) fun _ =>
+              W.pure (()))
+          (fun s0 =>
             W.bind ((genExport env cwd landmarksobject fp landmarkTypes extension0 overwrite none)) fun _ =>
-              W.pure ()
-        else
-          W.throw e_)
+              W.pure ())
+          (fun e_ =>
+            if e_ == Exc.attributeError then
+              let fpispath0 := (Fp.isStrOrPath fp)
+              if (((extension0).isSome && ((extension0 != (ostr ".ljson")))) || ((PyX.truthy fpispath0) && (((Fp.suffix (Fp.toPath fp)) != (ostr ".ljson"))))) then
+                let m10 := ()
+                W.throw Exc.valueError
+              else
+                W.bind ((genExport env cwd landmarksobject fp landmarkTypes extension0 overwrite none)) fun _ =>
+                  W.pure ()
+            else
+              W.throw e_)
+  else
+    W.bind ((W.lift (genNormalizeExtension extension))) fun extension0 =>
+      W.tryW (
+          W.bind ((W.lift (ExObj.nPoints landmarksobject))) fun _ =>
+            W.pure (()))
+        (fun s0 =>
+          W.bind ((genExport env cwd landmarksobject fp landmarkTypes extension0 overwrite none)) fun _ =>
+            W.pure ())
+        (fun e_ =>
+          if e_ == Exc.attributeError then
+            let fpispath0 := (Fp.isStrOrPath fp)
+            if (((extension0).isSome && ((extension0 != (ostr ".ljson")))) || ((PyX.truthy fpispath0) && (((Fp.suffix (Fp.toPath fp)) != (ostr ".ljson"))))) then
+              let m10 := ()
+              W.throw Exc.valueError
+            else
+              W.bind ((genExport env cwd landmarksobject fp landmarkTypes extension0 overwrite none)) fun _ =>
+                W.pure ()
+          else
+            W.throw e_)
 
 def genExportImage (env : Env) (cwd : Path) (imageTypes : List (String × String)) (image : ExObj) (fp : Fp) (extension : OStr) (overwrite : Bool) : IOx Unit :=
   W.bind ((genExport env cwd image fp imageTypes extension overwrite none)) fun _ =>
